@@ -210,6 +210,10 @@ def run(chk):
             chk.fail(f"malformed:{key}", "a grid file written without any error is malformed: " + msg, {"grid": g.name, "config": g.cfg})
         n += len(documented)
         # chi: finite exactly on the closed field lines (core regions inside the primary separatrix), NaN elsewhere -- from the assembled file and the region layout
+        # (a single null written with start_at_upper_outer=True gets its own key: the region order no longer matches the integer ladder, finding F27)
+        eqnames = " ".join(r["eqname"] for r in g.d["regions"].values())
+        single_null = g.cfg["kind"] == "tokamak" and not ("upper" in eqnames and "lower" in eqnames)
+        f27 = ":sn-start_at_upper_outer" if (single_null and g.cfg.get("options", {}).get("start_at_upper_outer")) else ""
         for suf in ("", "_xlow", "_ylow"):
             if g.cfg["kind"] == "tokamak" and "chi" + suf in g.d["file"]:
                 chi = np.asarray(g.d["file"]["chi" + suf], dtype=float)
@@ -219,10 +223,10 @@ def run(chk):
                     closed = ("core" in r["eqname"]) and r["radialIndex"] < r["separatrix_radial_index"]
                     n += blk.size
                     if closed and not np.all(np.isfinite(blk)):
-                        chk.fail(f"malformed:nan-pattern:chi{suf}:closed-surface", f"chi{suf} is not finite on closed field lines", {"grid": g.name, "region": r["name"], "non_finite": int((~np.isfinite(blk)).sum()), "of": int(blk.size)})
+                        chk.fail(f"malformed:nan-pattern:chi{suf}:closed-surface{f27}", f"chi{suf} is not finite on closed field lines", {"grid": g.name, "region": r["name"], "non_finite": int((~np.isfinite(blk)).sum()), "of": int(blk.size)})
                     if not closed and suf != "_xlow" and not np.all(np.isnan(blk)):
                         # (the x-face copy of the innermost open surface is the separatrix itself: not judged)
-                        chk.fail(f"malformed:nan-pattern:chi{suf}:open-field-line", f"chi{suf} is not NaN on open field lines (it is documented as undefined there)", {"grid": g.name, "region": r["name"], "finite": int(np.isfinite(blk).sum())})
+                        chk.fail(f"malformed:nan-pattern:chi{suf}:open-field-line{f27}", f"chi{suf} is not NaN on open field lines (it is documented as undefined there)", {"grid": g.name, "region": r["name"], "finite": int(np.isfinite(blk).sum())})
     # ---- around the envelope: an exception or a valid file
     E = envelope_configs(chk.tier)
     for c, g in zip(E, corpus.get(names=[], extra_cfgs=E)):
